@@ -6,6 +6,13 @@ import json
 from .individual import Individual
 
 
+def _json_default(value):
+    """ numpy scalars and arrays (e.g. the int64 that rounding an integer cost produces) are stored as plain JSON """
+    if hasattr(value, 'tolist') and type(value).__module__ == 'numpy':
+        return value.tolist()
+    raise TypeError("Object of type {} is not JSON serializable".format(type(value).__name__))
+
+
 class DummyDataStore:
     def __init__(self):
         pass
@@ -161,7 +168,7 @@ class SqliteDataStore(DummyDataStore):
 
             # data
             try:
-                c.execute(self.sql_individuals_upsert, [individual.id, json.dumps(individual.to_dict())])
+                c.execute(self.sql_individuals_upsert, [individual.id, json.dumps(individual.to_dict(), default=_json_default)])
                 conn.commit()
             except sqlite3.OperationalError as e:
                 # try again
@@ -173,6 +180,6 @@ class SqliteDataStore(DummyDataStore):
             c = conn.cursor()
 
             for individual in self.problem.individuals:
-                c.execute(self.sql_individuals_upsert, [individual.id, json.dumps(individual.to_dict())])
+                c.execute(self.sql_individuals_upsert, [individual.id, json.dumps(individual.to_dict(), default=_json_default)])
 
             conn.commit()
